@@ -230,9 +230,21 @@ pub fn run_check<C>(
 }
 
 fn panic_sig(id: &str, msg: &str) -> String {
-  // location + first 60 chars of message, digits normalised
-  let short: String = msg.chars().take(90).collect();
-  format!("{id}/panic/{short}")
+  // location + start of the message with specifiers normalised, so that one
+  // root cause is one signature
+  let mut norm = String::new();
+  for w in msg.split_whitespace() {
+    if w.contains("://") || w.starts_with("file:") || w.starts_with("jsr:") || w.starts_with("npm:") {
+      norm.push_str("<specifier>");
+    } else {
+      norm.push_str(w);
+    }
+    norm.push(' ');
+    if norm.len() > 90 {
+      break;
+    }
+  }
+  format!("{id}/panic/{}", norm.trim())
 }
 
 struct WorkerState {
